@@ -73,7 +73,7 @@ def corpus_yaml(name):
 
 
 def make_args(filenames, outdir, logdir=None, options=(), language=None, path=None, write_version=False,
-              cfiles="", ffiles="", outdir_c_fortran="", outdir_python="", outdir_lua="", outdir_yaml=""):
+              cfiles="", ffiles="", outdir_c_fortran="", outdir_python="", outdir_lua="", outdir_yaml="", write_helpers=""):
     a = argparse.Namespace()
     a.cmake = ""
     a.cfiles = cfiles
@@ -86,7 +86,7 @@ def make_args(filenames, outdir, logdir=None, options=(), language=None, path=No
     a.outdir_python = outdir_python
     a.outdir_yaml = outdir_yaml
     a.path = list(path) if path else [REG]
-    a.write_helpers = ""
+    a.write_helpers = write_helpers
     a.write_statements = ""
     a.yaml_types = ""
     a.write_version = write_version
